@@ -1037,6 +1037,81 @@ example : ∃ limit, readEvents classifyLine limit (fileAfter ets [] (runCmd [] 
   exact ⟨l, (C12_file_decodes_to_the_log h).1⟩
 example : (runCmd [] envA reqA).log.length = 3 := by decide
 
+/-! ### the byte-level process system: one of ergo's own commands (`claim`) as a writer on the JSON file of the demo history -/
+section BytesRun
+open ProcB Proc
+
+def envC : Env := { agent := "ag-9", times := [700] }
+def secC : Sec := .claimOldest ""
+def wrC : Write := .append [.claim "AAAAAA" "ag-9" (some 700), .state "AAAAAA" .doing (some 700)]
+theorem claim_decides : cmdWriter envC secC batchA = .ok wrC := by decide +kernel
+theorem envC_T : EnvT envC := by intro t ht; simp [envC] at ht; subst ht; decide
+
+theorem run_limit_exists : ∃ limit, Short Wf (encodeEvent ets) limit (batchA ++ wrC.events) := by
+  obtain ⟨l, hl⟩ := short_exists (encodeEvent ets) (batchA ++ wrC.events)
+  have hw : AllWf wrC.events := cmdWriter_wf envC envC_T secC batchA wrC batchA_wf claim_decides
+  exact ⟨l, fun e he => ⟨allWf_append batchA_wf hw e he, (hl e he).2⟩⟩
+noncomputable def rLimit : Nat := Classical.choose run_limit_exists
+theorem rShort : Short Wf (encodeEvent ets) rLimit (batchA ++ wrC.events) := Classical.choose_spec run_limit_exists
+
+noncomputable def rfile : Bytes := appendFile classifyLine (encodeEvent ets) [] batchA
+theorem rfile_reads : readEvents classifyLine rLimit rfile = .ok batchA := by
+  have := C12_append_extends_json ets (limit := rLimit) [] [] batchA readEvents_nil (fun e he => rShort e (List.mem_append_left _ he))
+  simpa [rfile] using this
+
+noncomputable def b0 : BSys := BSys.init rfile [cmdWriter envC secC] 1 rLimit ets
+theorem b0_inv : ProcB.Inv b0 :=
+  inv_init rfile _ 1 rLimit ets batchA rfile_reads batchA_wf (by
+    intro d hd snap wr hs hdec
+    simp only [List.mem_singleton] at hd; subst hd
+    exact cmdWriter_wf envC envC_T secC snap wr hs hdec)
+
+noncomputable def b1 : BSys := { setPhaseB b0 0 .locked with holder := some 0 }
+noncomputable def b2 : BSys := setPhaseB b1 0 (.read batchA)
+noncomputable def b3 : BSys := { setPhaseB (writeBytes b2 wrC) 0 (.wrote batchA wrC) with commits := b2.commits ++ [(0, batchA, wrC)] }
+/-- the same writer killed after 25 bytes of its write instead -/
+noncomputable def b3torn : BSys :=
+  { setPhaseB { b2 with files := b2.files.set b2.cur (appendTorn classifyLine (encodeEvent b2.ets) b2.file wrC.events 25) } 0 .crashed
+    with holder := if b2.holder = some 0 then none else b2.holder }
+
+theorem step01 : BStep b0 b1 := BStep.lockOk b0 0 ⟨cmdWriter envC secC, .start⟩ rfl rfl rfl
+theorem step12 : BStep b1 b2 := BStep.read b1 0 ⟨cmdWriter envC secC, .locked⟩ batchA rfl rfl rfile_reads
+theorem fitsC : Fits b2 (wEvents wrC) := fun e he => (rShort e (List.mem_append_right _ he)).2
+theorem step23 : BStep b2 b3 := BStep.write b2 0 ⟨cmdWriter envC secC, .read batchA⟩ batchA wrC rfl rfl claim_decides fitsC
+theorem step23torn : BStep b2 b3torn := BStep.tornWrite b2 0 ⟨cmdWriter envC secC, .read batchA⟩ batchA wrC.events 25 rfl rfl claim_decides fitsC
+
+theorem not_torn_01 : ¬ Torn b0 b1 := by
+  rintro ⟨p, w, snap, evs, k, h1, h2, _, _⟩
+  cases p with
+  | zero => simp [b0, BSys.init] at h1; subst h1; cases h2
+  | succ p => simp [b0, BSys.init] at h1
+theorem not_torn_12 : ¬ Torn b1 b2 := by
+  rintro ⟨p, w, snap, evs, k, h1, h2, _, _⟩
+  cases p with
+  | zero => simp [b1, b0, BSys.init, setPhaseB] at h1; subst h1; cases h2
+  | succ p => simp [b1, b0, BSys.init, setPhaseB] at h1
+theorem not_torn_23 : ¬ Torn b2 b3 := by
+  rintro ⟨p, w, snap, evs, k, _, _, _, heq⟩
+  have := congrArg (fun s => s.commits) heq
+  simp [b3, b2, b1, b0, BSys.init, setPhaseB] at this
+
+theorem reach3 : BReachableNT b0 b3 :=
+  .tail (.tail (.tail (.refl _) step01 not_torn_01) step12 not_torn_12) step23 not_torn_23
+
+/-- C02 (bytes): after the claim, the bytes under the log's name decode to the demo batch plus the claim's two events -/
+example : readEvents classifyLine rLimit b3.file = .ok (logAfter batchA b3.commits b3.commits.length) :=
+  C02_bytes_are_the_serial_fold rfile _ 1 rLimit ets batchA rfile_reads batchA_wf (by
+    intro d hd snap wr hs hdec
+    simp only [List.mem_singleton] at hd; subst hd
+    exact cmdWriter_wf envC envC_T secC snap wr hs hdec) b3 reach3
+/-- C03 (bytes): the writer killed after 25 bytes of its write: the store still loads -/
+example : ProcB.Inv b3torn :=
+  C03_store_loads_under_every_schedule_and_kill (.tail (.tail (.tail (.refl _) step01) step12) step23torn) b0_inv
+example : TornResult b2 b3torn :=
+  (torn_sim b2 (reach_inv (.tail (.tail (.refl _) step01) step12) b0_inv) 0 ⟨cmdWriter envC secC, .read batchA⟩ batchA wrC.events 25 rfl rfl claim_decides fitsC).2
+
+end BytesRun
+
 end JsonWitness
 
 end Witness
